@@ -4,6 +4,7 @@ import Driver.Agg
 import Driver.Price
 import Driver.Rewards
 import Driver.Pconc
+import Driver.Abi
 open Driver
 
 def dispatch (fam : String) : Option (List String → String → Option Res) :=
@@ -17,6 +18,12 @@ def dispatch (fam : String) : Option (List String → String → Option Res) :=
   | "pcache" => some runPcache
   | "pconc" => some runPconc
   | "calc" => some runCalc
+  | "valset" => some runValset
+  | "checkpoint" => some runCheckpoint
+  | "attest" => some runAttest
+  | "qid" => some runQid
+  | "wvalue" => some runWvalue
+  | "sigconv" => some runSigconv
   | "alloc" => some runAlloc
   | "divvy" => some runDivvy
   | _ => none
